@@ -376,8 +376,9 @@ theorem angle_readers_documented :
 
 /-- **The MRC reader and writer every operation passes through** (`cryomap.read` / `cryomap.write`, whole bodies — not only the
 `transpose=` keyword of the two call sites): `read` returns a copy of `mrcfile.open(...).data`, transposed only on request, cast
-only on request; `write` casts to `data_type`, transposes only on request, stores float64 as float32 and hands the array to
-`mrcfile.write`. -/
+only on request; `write` casts to `data_type`, converts big-endian data to little-endian (value-preserving `astype` to the same dtype in the
+other byte order; repository fix ee78eb9 — the stacks of this property are native little-endian, for which the branch is not
+taken), transposes only on request, stores float64 as float32 and hands the array to `mrcfile.write`. -/
 theorem mrc_io_documented :
     Gen.C15.cryomapReadBody = 
       ["if isinstance(input_map, str):",
@@ -405,6 +406,8 @@ theorem mrc_io_documented :
     ∧ Gen.C15.cryomapWriteBody = 
       ["if data_type is not None:",
       "  data_to_write = data_to_write.astype(data_type)",
+      "if data_to_write.dtype.byteorder == '>':",
+      "  data_to_write = data_to_write.astype(data_to_write.dtype.newbyteorder('<'))",
       "if transpose and data_to_write.ndim == 3:",
       "  data_to_write = data_to_write.transpose(2, 1, 0)",
       "if data_to_write.dtype == np.float64:",
